@@ -174,6 +174,39 @@ def protocol_run(rng, S, t, n, exhaustive_subset=None, big_idents=None):
         cl.add("sign:%s-entry-%s-replaced" % (who, part))
         if who == "own" and z2 is not None:
             lines.append("ping"); exp.append("ORACLE-INCONSISTENT: reference signs over a list that does not hold its own commitment")
+    # a signer presented with a caller-built list (entries decoded one by one, not through decode_list) that is well-formed up to
+    # and including its own entry but unordered / duplicated / truncated elsewhere: must refuse (None), never panic; the
+    # well-formed list through the same entry point gives the same share
+    for _ in range(2):
+        i = rng.choice(signers)
+        idx = next(n_ for n_, c in enumerate(chosen) if c[0] == shares[i]["ident"])
+        kinds = ["wellformed", "single-entry"]
+        if len(chosen) - idx - 1 >= 2: kinds += ["tail-swapped"] * 3
+        if len(chosen) - idx - 1 >= 1: kinds += ["tail-duplicate", "tail-repeats-own", "tail-repeats-earlier"] * 2
+        if idx >= 2: kinds += ["head-swapped"]
+        if idx >= 1: kinds += ["head-duplicate"]
+        kind = rng.choice(kinds)
+        ch2 = list(chosen)
+        if kind == "single-entry":
+            ch2 = [chosen[idx]]
+        elif kind == "tail-swapped":
+            a_, b_ = sorted(rng.sample(range(idx + 1, len(chosen)), 2)); ch2[a_], ch2[b_] = ch2[b_], ch2[a_]
+        elif kind == "tail-duplicate":
+            j = rng.randrange(idx + 1, len(chosen)); ch2.insert(j, ch2[j])
+        elif kind == "tail-repeats-own":
+            ch2.insert(rng.randrange(idx + 1, len(chosen) + 1), chosen[idx])
+        elif kind == "tail-repeats-earlier":
+            ch2.insert(rng.randrange(idx + 1, len(chosen) + 1), chosen[rng.randrange(0, idx + 1)])
+        elif kind == "head-swapped":
+            a_, b_ = sorted(rng.sample(range(0, idx), 2)); ch2[a_], ch2[b_] = ch2[b_], ch2[a_]
+        elif kind == "head-duplicate":
+            j = rng.randrange(0, idx); ch2.insert(j, ch2[j])
+        z2 = S.sign_share(shares[i], nonces[i], comms[i], msg, ch2)
+        lines.append(T + "sign_raw %s %s %s %s %s" % (shares_b[i].hex(), nonces_b[i].hex(), comms_b[i].hex(), hx(msg), S.enc_commitment_list(ch2).hex()))
+        exp.append(("OK S " + S.enc_sig_share((shares[i]["ident"], z2)).hex()) if z2 is not None else "OK N")
+        cl.add("sign_raw:%s" % kind)
+        if (kind == "wellformed") != (z2 is not None):
+            lines.append("ping"); exp.append("ORACLE-INCONSISTENT: reference sign_share on a %s list" % kind)
     ss_b = {i: S.enc_sig_share((shares[i]["ident"], zs[i])) for i in signers}
     for i in signers:
         ok = S.verify_share(spks[i], shares[i]["ident"], zs[i], chosen, gpk, msg)
@@ -569,7 +602,8 @@ def main(argv):
         req += [s + ":noncanonical-scalar" for s in F.SUITES] + ["noncanonical-scalar:top-byte"]
         req += ["honest-run", "duplicate-commitment", "corrupt-sig-share", "corrupt-commitment", "corrupt-signature", "corrupt-share-secret", "corrupt-vss",
                 "share-wrong-signer", "share-ident-altered", "other-message", "wire-roundtrip", "rfc8032-interop", "signer-not-in-list", "other-group-key", "identifiers>255", "point-in-other-valid-format", "sign:own-entry-hiding-replaced", "sign:own-entry-binding-replaced",
-                "sign:own-entry-both-replaced", "sign:other-entry-hiding-replaced"]
+                "sign:own-entry-both-replaced", "sign:other-entry-hiding-replaced",
+                "sign_raw:wellformed", "sign_raw:single-entry", "sign_raw:tail-swapped", "sign_raw:tail-duplicate", "sign_raw:tail-repeats-own", "sign_raw:tail-repeats-earlier"]
         req += [s + ":structured-point:accepted" for s in F.SUITES]
         req += [s + ":threshold-mismatch" for s in F.SUITES] + [s + ":large-threshold" for s in F.SUITES] + [s + ":keygen-zero-scalar" for s in F.SUITES] + [s + ":more-signers-than-threshold" for s in F.SUITES] + ["more-signers:assembled"]
         rep.require(*req)
